@@ -1,0 +1,141 @@
+//go:build verif
+
+package asp
+
+// Verification hook for property C18 (plugin configuration). Add-only; compiled only with -tags verif.
+// Nothing here changes behaviour: it runs BUILD files exactly as VerifC16Eval does, except that a defs file
+// may be declared to belong to a PLUGIN (a subrepo whose .plzconfig has a [PluginDefinition] and
+// [PluginConfig "..."] sections); subinclude() of such a file then calls interpreter.loadPluginConfig with the
+// plugin's state first - the same call, in the same place, as the real subinclude() builtin makes.
+
+import (
+	"fmt"
+	"os"
+	"path/filepath"
+	"strings"
+
+	"github.com/thought-machine/please/rules"
+	"github.com/thought-machine/please/src/core"
+)
+
+// VerifC18Field is one [PluginConfig "name"] section of the plugin's .plzconfig.
+type VerifC18Field struct {
+	Name       string
+	Default    []string
+	Repeatable bool
+	Optional   bool
+	Type       string
+	// Host: the values the HOST repository's .plzconfig gives under [Plugin "<plugin>"] (nil = none)
+	Host []string
+}
+
+// VerifC18Plugin declares the defs file Label to be an output of the plugin Name.
+type VerifC18Plugin struct {
+	Label  string
+	Name   string
+	Fields []VerifC18Field
+}
+
+// VerifC18Eval interprets the BUILD files in order on one fresh parser (see VerifC16Eval).
+func VerifC18Eval(files []VerifC16File, plugins []VerifC18Plugin) (out []VerifC16Result, err error) {
+	state := core.NewDefaultBuildState()
+	// the host repository's [Plugin "name"] sections
+	for _, pl := range plugins {
+		for _, f := range pl.Fields {
+			if f.Host == nil {
+				continue
+			}
+			if state.RepoConfig.Plugin == nil {
+				state.RepoConfig.Plugin = map[string]*core.Plugin{}
+			}
+			name := strings.ToLower(pl.Name)
+			if state.RepoConfig.Plugin[name] == nil {
+				state.RepoConfig.Plugin[name] = &core.Plugin{ExtraValues: map[string][]string{}}
+			}
+			state.RepoConfig.Plugin[name].ExtraValues[strings.ToLower(strings.ReplaceAll(f.Name, "_", ""))] = f.Host
+		}
+	}
+	p := NewParser(state)
+	src, err := rules.ReadAsset("builtins.build_defs")
+	if err != nil {
+		return nil, err
+	}
+	if err := p.LoadBuiltins("builtins.build_defs", src); err != nil {
+		return nil, err
+	}
+	dir, err := os.MkdirTemp("", "c18-hook-")
+	if err != nil {
+		return nil, err
+	}
+	defer os.RemoveAll(dir)
+	paths := map[string]string{}
+	for _, f := range files {
+		if !f.Defs {
+			continue
+		}
+		path := filepath.Join(dir, fmt.Sprintf("d%d.build_defs", len(paths)))
+		if err := os.WriteFile(path, []byte(f.Src), 0o644); err != nil {
+			return nil, err
+		}
+		paths[f.Name] = path
+	}
+	pluginStates := map[string]*core.BuildState{}
+	for _, pl := range plugins {
+		ps := core.NewDefaultBuildState()
+		ps.RepoConfig.PluginDefinition.Name = pl.Name
+		ps.RepoConfig.PluginConfig = map[string]*core.PluginConfigDefinition{}
+		for _, f := range pl.Fields {
+			ps.RepoConfig.PluginConfig[f.Name] = &core.PluginConfigDefinition{
+				DefaultValue: f.Default, Repeatable: f.Repeatable, Optional: f.Optional, Type: f.Type,
+			}
+		}
+		pluginStates[pl.Label] = ps
+	}
+	sub := p.interpreter.scope.Lookup("subinclude").(*pyFunc)
+	sub.nativeCode = func(s *scope, args []pyObject) pyObject {
+		for _, arg := range args {
+			name, ok := arg.(pyString)
+			s.Assert(ok, "cannot subinclude type %s", arg.Type())
+			path, present := paths[string(name)]
+			s.Assert(present, "verif: no such defs file %s", name)
+			// the same calls as the real subinclude() builtin makes: the plugin's config first, then each output file
+			incPkgState := s.state
+			if ps, ok := pluginStates[string(name)]; ok {
+				incPkgState = ps
+			}
+			s.interpreter.loadPluginConfig(s, incPkgState)
+			s.SetAll(s.interpreter.Subinclude(s, path, core.BuildLabel{PackageName: "defs", Name: strings.Trim(string(name), "/:")}, false), false)
+		}
+		return None
+	}
+
+	var builds []VerifC16File
+	for _, f := range files {
+		if !f.Defs {
+			builds = append(builds, f)
+		}
+	}
+	out = make([]VerifC16Result, len(builds))
+	scopes := make([]*scope, len(builds))
+	for i, f := range builds {
+		out[i].Name = f.Name
+		stmts, err := p.ParseData([]byte(f.Src), f.Name+"/BUILD")
+		if err != nil {
+			out[i].Err = "parse: " + verifShort(err)
+			continue
+		}
+		s, err := p.interpreter.interpretAll(core.NewPackage(f.Name), nil, nil, 0, stmts)
+		if err != nil {
+			out[i].Err = verifShort(err)
+			continue
+		}
+		scopes[i] = s
+		out[i].After = verifGlobals(s)
+	}
+	for i, s := range scopes {
+		if s != nil {
+			out[i].Final = verifGlobals(s)
+		}
+	}
+	return out, nil
+}
